@@ -49,6 +49,35 @@ def punct_refusals(ctx):
     ctx.count(n, 'punctuation_near_misses')
 
 
+# spellings with the canonical code the property's reading gives them (specification side, written by hand): units and
+# trailing zeros of every throw family with a number, hurdle specifications, relays, letter case
+SPEC_SPELLINGS = [('OT150', 'OT150'), ('OT400g', 'OT400'), ('ot150', 'OT150'), ('JT600g', 'JT600'), ('JT800', 'JT800'), ('jt700g', 'JT700'),
+                  ('DT1.50Kg', 'DT1.5K'), ('dt 1.5 KG', 'DT1.5K'), ('CT 0.397kg', 'CT0.397K'), ('CT0.397k', 'CT0.397K'), ('BT1.0K', 'BT1K'),
+                  ('BT 1 kg', 'BT1K'), ('ST3.25K', 'ST3.25K'), ('st 3.250 kg', 'ST3.25K'), ('GDT 20kg', 'GDT20K'), ('HT7.260KG', 'HT7.26K'),
+                  ('SP 7.260 kg', 'SP7.26K'), ('sp4.00K', 'SP4K'), ('400H 84.0cm 8.50m', '400H84cm8.5m'), ('100H84.00cm', '100H84cm'),
+                  ('4X400', '4x400'), ('3000 sc', '3000SC'), ('mile', 'MILE'), ('WT9.080K', 'WT9.08K'), ('HT4.00kg', 'HT4K')]
+
+
+def spec_spellings(ctx):
+    """implementation only (runs even when the translation fails): every listed spelling gives its canonical code, which is
+    accepted and unchanged by normalising again"""
+    vlib.use_repo()
+    import athlib
+    for sp, want in SPEC_SPELLINGS:
+        rp = 'result = athlib.normalize_event_code(%r)' % sp
+        try: got = athlib.normalize_event_code(sp)
+        except Exception as e: got = 'raises ' + type(e).__name__
+        ctx.count(1, 'spec_spellings')
+        if got != want:
+            ctx.fail('athlib.normalize_event_code', [sp], want, got, note='a customary spelling is not given its canonical code', replay_py=rp)
+            continue
+        try: again = athlib.normalize_event_code(got)
+        except Exception as e: again = 'raises ' + type(e).__name__
+        if again != got or not athlib.check_event_code(got):
+            ctx.fail('athlib.normalize_event_code', [sp], '%s, accepted and unchanged by normalising again' % want, '%s -> %s' % (got, again),
+                     note='the canonical code is not stable / not accepted', replay_py=rp.replace('result = ', 'r = ') + '\nresult = (r, athlib.normalize_event_code(r))')
+
+
 def run(ctx):
     ctx.rule = ('the language of PAT_EVENT_CODE enumerated from its syntax tree (every alternative and optional part forced, digit runs 0-4 incl. non-ASCII digits, every white-space symbol) '
                 '+ case / spacing / unit-suffix / trailing-zero variants of each code (kept when still accepted) + near-miss strings; distinct = distinct strings; '
@@ -56,6 +85,7 @@ def run(ctx):
     ctx.trusted += ['tools/gen_regex.py incl. the group map and the upper-casing map on symbols (checked over all code points), validated each run against re.match group spans',
                     'str.upper is modelled as ASCII upper-casing (accepted codes contain only ASCII letters, digits of any script, ".", white space)']
     punct_refusals(ctx)                       # implementation only: runs even when the translation below fails
+    spec_spellings(ctx)
     g = gen.regex(ctx, ['PAT_EVENT_CODE', 'PAT_RELAYS'] + CC.FAMILIES)
     if g is None: return
     side, alpha, trees, mod, changed = g
